@@ -144,7 +144,7 @@ class Parser:
         k, v = self.peek()
         if k == "num":
             self.take()
-            return ("num", float(v))
+            return ("num", int(v) if v.isdigit() else float(v))
         if k == "str":
             self.take()
             return ("str", v[1:-1])
@@ -192,7 +192,7 @@ class Env:
 
 
 def _is_scalar(x):
-    return isinstance(x, float)
+    return isinstance(x, (int, float))
 
 
 def _sum_product(ops, subs, out):
@@ -231,7 +231,7 @@ def evaluate(node, env, backend):
     if k == "num":
         return node[1]
     if k == "neg":
-        return _mul(-1.0, evaluate(node[1], env, backend))
+        return _mul(-1, evaluate(node[1], env, backend))
     if k == "bin":
         a, b = evaluate(node[2], env, backend), evaluate(node[3], env, backend)
         if node[1] == "*":
@@ -241,6 +241,8 @@ def evaluate(node, env, backend):
                 raise EvalError("division of tensors")
             if b == 0:
                 raise EvalError("division by zero")
+            if backend == "libtensor" and isinstance(a, int) and isinstance(b, int):
+                return int(a / b)           # C++: integer division truncates
             return a / b
         return _add(a, b, 1.0 if node[1] == "+" else -1.0)
     if k == "name":
@@ -344,9 +346,8 @@ def _mul(a, b):
         return Arr(b.shape, {p: a * v for p, v in b.data.items()}, b.labels)
     if a.labels is None or b.labels is None:
         raise EvalError("product of two arrays outside einsum")
-    if set(a.labels) & set(b.labels):
-        raise EvalError("product of labelled tensors that share a label")
-    out = a.labels + b.labels
+    # product by labels; a label on both factors (a target index on two operands) is an elementwise product there
+    out = a.labels + tuple(lb for lb in b.labels if lb not in a.labels)
     shape, data = _sum_product([(a.shape, a.data), (b.shape, b.data)], [a.labels, b.labels], out)
     return Arr(shape, data, out)
 
